@@ -238,8 +238,7 @@ def execute(plan, env):
 
 def shrink(plan, still_fails, budget):
     from .. import core
-    env = core._ENV
-    res = core.run_one(__import__("sim.checks.c20_namespace", fromlist=["x"]), plan, env)
+    res = core.probe(plan)
     if res.violation is None:
         return plan
     best = dict(plan, sequence=res.violation["sequence"])
